@@ -6,11 +6,26 @@ props = [json.loads(l) for l in open(os.path.join(ROOT, "properties.jsonl"))]
 
 TECH = "deterministic simulation with fault injection (seeded schedule/fault search over the real code in a testing/synctest bubble)"
 
+SIG_NOTE = "Trusts: go1.26.8 toolchain with a three-file runtime overlay (seeded select/map/timer-tie order), patched util/broadcast (simulated mutex), the simulated message streams standing in for srpc/yamux/QUIC streams. Interleavings only at simulator-owned points (deliveries, armed scheduling points, operations, faults, ticks). Sampling, not proof."
+
+def sim(text, ref, oracle, note=SIG_NOTE):
+    return dict(text=text, note=note, ref=ref, technique=TECH + "; oracle: " + oracle)
+
 CLAIMED = {
- "C23": dict(
-   text="Bounded liveness by seeded simulation: real relay Server + two real Clients on simulator-owned streams; attach order, operation order, message deliveries, armed scheduling points (relay mutex sites, client broadcast-lock sites), stream resets and clock jumps are all drawn from one tape; after the last fault a fair schedule must complete every Send within 30 simulated minutes. Sampling, not proof.",
-   note="Trusts: go1.26.8 toolchain with a three-file runtime overlay (seeded select/map/timer-tie order), patched util/broadcast (simulated mutex), the simulated stream transport standing in for srpc. Interleavings only at simulator-owned points.",
-   ref="5 (C23), 3", technique=TECH + "; oracle: bounded liveness after the last fault"),
+ "C19": sim("Real signaling Client against a scripted hostile relay that injects forged, tampered, re-attributed, cross-context, unsigned and replayed messages and unsolicited control messages at arbitrary points of the client's retry/receive schedule; every message the application receives must carry content the harness signed with the peer's key for this recipient.",
+            "5 (C19)", "authenticity by membership in the harness-made honest pool (never bifrost's own verifier)"),
+ "C20": sim("Real relay Server against scripted clients that submit foreign-signed, tampered, wrong-context, unsigned, stale-epoch and future-epoch requests, unsolicited acks/clears, requests before Init and bad Inits, interleaved with honest traffic, session replacement and stream resets; every RecvMsg the relay emits is checked against what the authenticated owner of the partner stream really signed and submitted, and against the announced epochs.",
+            "5 (C20)", "per-emission invariant against harness ground truth + quiescence rule for future epochs"),
+ "C21": sim("Real Server and 2-3 real Clients; sends, cancellations, stream resets, and (in a separate lossy configuration) dropped/duplicated wire messages; at the instant a Send returns nil the destination application must already have received exactly that signed message.",
+            "5 (C21)", "trace validation at completion events (success implies earlier byte-equal delivery)"),
+ "C22": sim("Real relay Server driven through raw Session streams so that every announcement is observed in wire order; attach, replace (usurp), close, reset, send/ack/clear under parked relay loops; per-delivery epoch agreement, announced-epoch agreement with the relay's real epoch at every quiescent point, and a final probe under the announced epoch.",
+            "5 (C22)", "invariants at delivery and at quiescence + verif accessor cross-check + probe"),
+ "C23": sim("Bounded liveness by seeded simulation: real relay Server + two real Clients on simulator-owned streams; attach order, operation order, message deliveries, armed scheduling points (relay mutex sites, client broadcast-lock sites), stream resets and clock jumps are all drawn from one tape; after the last fault a fair schedule must complete every Send within 30 simulated minutes.",
+            "5 (C23), 3", "bounded liveness after the last fault"),
+ "C24": sim("Real relay Server under churn of raw Listen and Session calls of three parties (open, replace, close, reset, parked handlers); at every quiescent point the announced-minus-withdrawn set of each running Listen call must equal the set of parties with a registered Session toward it.",
+            "5 (C24)", "set equality with the reference model at quiescence"),
+ "C25": sim("Same churn world; at quiescence at most one running Listen per party and one Session per ordered pair, relay-ended calls carry the replaced error, and after every call has been closed and drained the relay holds no per-peer or per-session state (verif accessor).",
+            "5 (C25)", "uniqueness invariant at quiescence + replaced-error check + empty-state check at the end"),
 }
 
 NA_PURE = {
